@@ -23,6 +23,17 @@ let show_operand (o : operand) : string =
 
 let show_err (c : n) : string = "ERR" ^ string_of_int (int_of_n c)
 
+(* canonical text of a reference tree (Spec.Pratt.rtree) *)
+let rec show_rtree (t : rtree) : string =
+  let d x = string_of_int (int_of_n (definition_index x)) in
+  let n x = string_of_int (int_of_nat x) in
+  match t with
+  | RAtom (x, tok) -> "A" ^ d x ^ "." ^ n tok
+  | RPre (x, tok, a) -> "P" ^ d x ^ "." ^ n tok ^ "(" ^ show_rtree a ^ ")"
+  | RSuf (x, tok, a) -> "S" ^ d x ^ "." ^ n tok ^ "(" ^ show_rtree a ^ ")"
+  | RBin (x, tok, l, r) -> "B" ^ d x ^ "." ^ (match tok with None -> "-" | Some k -> n k) ^ "(" ^ show_rtree l ^ "," ^ show_rtree r ^ ")"
+  | RGroup (tok, a) -> "G" ^ n tok ^ "(" ^ show_rtree a ^ ")"
+
 let () =
   iter_lines (fun line ->
     match split_on '\t' line with
@@ -57,6 +68,7 @@ let () =
                     (String.concat "," (List.map (fun j -> string_of_int (int_of_nat j)) s.jumps))
                     (String.concat "," (List.map opt_nat s.meta))) in
              ps, bs) in
-        Printf.printf "%s\tL=ok P=%s B=%s\t-\n" case p_str b_str
+        let spec = (match pratt toks with Some t -> "tree=" ^ show_rtree t | None -> "-") in
+        Printf.printf "%s\tL=ok P=%s B=%s\t%s\n" case p_str b_str spec
       end
     | _ -> failwith ("bad line " ^ line))
